@@ -880,6 +880,96 @@ Proof.
   destruct (reorged t) eqn:E; [|reflexivity]. cbn [reorged_loop]. destruct t; cbn in *; subst; reflexivity.
 Qed.
 
+(* what the memo holds after rebroadcast_stale_txs: what it held, plus penalties of the listed trackers *)
+Lemma send_memo_dom sc t x s t' y :
+  send_transaction sc t x = (s, t') -> aget (car_memo t') y <> None -> aget (car_memo t) y <> None \/ y = x.
+Proof.
+  unfold send_transaction. destruct (aget (car_memo t) x) eqn:Em.
+  - intros E. inversion E. subst. auto.
+  - intros E. inversion E. subst. cbn [car_memo set_car_memo log_rpc set_rpc_log aget].
+    destruct (N.eqb y x) eqn:Ey; [apply N.eqb_eq in Ey; auto|auto].
+Qed.
+
+Lemma stale_loop_memo_dom sc h us : forall t rej rej' t',
+  stale_loop sc h us t rej = Ok rej' t' ->
+  forall x, aget (car_memo t') x <> None ->
+            aget (car_memo t) x <> None \/ exists u k, In u us /\ find_trk (db_trks t) u = Some k /\ x = t_penalty k.
+Proof.
+  induction us as [|uuid r IH]; intros t rej rej' t' E x Hx.
+  - cbn [stale_loop] in E. inversion E. subst. auto.
+  - rewrite stale_loop_cons in E. destruct (find_trk (db_trks t) uuid) as [k|] eqn:Ef; [|discriminate].
+    destruct (send_transaction sc t (t_penalty k)) as [s t1] eqn:Es.
+    assert (Htr : db_trks t1 = db_trks t).
+    { destruct (send_spec sc t (t_penalty k)) as [m [l [Es' _]]]. rewrite Es' in Es. inversion Es. reflexivity. }
+    apply IH with (x := x) in E; [|exact Hx].
+    assert (Hstep : forall tn, (car_memo tn = car_memo t1) ->
+               (forall u k', find_trk (db_trks tn) u = Some k' -> exists k0, find_trk (db_trks t) u = Some k0 /\ t_penalty k' = t_penalty k0) ->
+               (aget (car_memo tn) x <> None \/ exists u k', In u r /\ find_trk (db_trks tn) u = Some k' /\ x = t_penalty k') ->
+               aget (car_memo t) x <> None \/ exists u k', In u (uuid :: r) /\ find_trk (db_trks t) u = Some k' /\ x = t_penalty k').
+    { intros tn Hm Hrows [H|[u [k' [Hu [Hf Hp]]]]].
+      - rewrite Hm in H. destruct (send_memo_dom _ _ _ _ _ x Es H) as [H'|H']; [left; exact H'|].
+        right. exists uuid, k. split; [left; reflexivity|]. split; [exact Ef|exact H'].
+      - destruct (Hrows u k' Hf) as [k0 [Hf0 Hp0]]. right. exists u, k0. split; [right; exact Hu|]. split; [exact Hf0|congruence]. }
+    assert (Hupd : forall hh c u k', find_trk (db_trks (set_trk_status t1 uuid hh c)) u = Some k' ->
+               exists k0, find_trk (db_trks t) u = Some k0 /\ t_penalty k' = t_penalty k0).
+    { intros hh c u k' Hf. rewrite find_trk_set_status, Htr in Hf. destruct (find_trk (db_trks t) u) as [k0|]; [|discriminate].
+      exists k0. split; [reflexivity|]. cbn [option_map] in Hf. inversion Hf.
+      destruct (uuid_eqb (trk_uuid k0) uuid); reflexivity. }
+    destruct s as [hh|hh| |c].
+    + apply (Hstep (set_trk_status t1 uuid hh true) eq_refl (Hupd hh true) E).
+    + apply (Hstep (set_trk_status t1 uuid hh false) eq_refl (Hupd hh false) E).
+    + apply (Hstep (set_trk_status t1 uuid h false) eq_refl (Hupd h false) E).
+    + apply (Hstep t1 eq_refl); [|exact E]. intros u k' Hf. rewrite Htr in Hf. eauto.
+Qed.
+
+Lemma reorged_loop_memo_dom sc h us : forall t rej rej' t',
+  reorged_loop sc h us t rej = Ok rej' t' ->
+  forall x, aget (car_memo t') x <> None ->
+            aget (car_memo t) x <> None \/
+            exists u k, In u us /\ find_trk (db_trks t) u = Some k /\ (x = t_dispute k \/ x = t_penalty k).
+Proof.
+  induction us as [|uuid r IH]; intros t rej rej' t' E x Hx.
+  - cbn [reorged_loop] in E. inversion E. subst. auto.
+  - rewrite reorged_loop_cons in E. destruct (find_trk (db_trks t) uuid) as [k|] eqn:Ef.
+    2:{ destruct (IH _ _ _ _ E x Hx) as [H|[u [k [Hu H]]]]; [auto|]. right. exists u, k. split; [right; exact Hu|exact H]. }
+    destruct (send_transaction sc t (t_dispute k)) as [s t1] eqn:Es.
+    assert (Htr : db_trks t1 = db_trks t).
+    { destruct (send_spec sc t (t_dispute k)) as [m [l [Es' _]]]. rewrite Es' in Es. inversion Es. reflexivity. }
+    assert (Hback1 : aget (car_memo t1) x <> None ->
+                     aget (car_memo t) x <> None \/
+                     exists u k', In u (uuid :: r) /\ find_trk (db_trks t) u = Some k' /\ (x = t_dispute k' \/ x = t_penalty k')).
+    { intros H. destruct (send_memo_dom _ _ _ _ _ x Es H) as [H'|H']; [left; exact H'|].
+      right. exists uuid, k. split; [left; reflexivity|]. split; [exact Ef|left; exact H']. }
+    assert (Hlift : forall (l0 : list trk),
+               (forall u k', find_trk l0 u = Some k' ->
+                  exists k0, find_trk (db_trks t) u = Some k0 /\ t_dispute k' = t_dispute k0 /\ t_penalty k' = t_penalty k0) ->
+               (exists u k', In u r /\ find_trk l0 u = Some k' /\ (x = t_dispute k' \/ x = t_penalty k')) ->
+               exists u k', In u (uuid :: r) /\ find_trk (db_trks t) u = Some k' /\ (x = t_dispute k' \/ x = t_penalty k')).
+    { intros l0 Hrows [u [k' [Hu [Hf Hp]]]]. destruct (Hrows u k' Hf) as [k0 [Hf0 [Hd0 Hp0]]].
+      exists u, k0. split; [right; exact Hu|]. split; [exact Hf0|]. rewrite <- Hd0, <- Hp0. exact Hp. }
+    assert (Hid : forall u k', find_trk (db_trks t) u = Some k' ->
+               exists k0, find_trk (db_trks t) u = Some k0 /\ t_dispute k' = t_dispute k0 /\ t_penalty k' = t_penalty k0) by eauto.
+    destruct (is_confirmed s); [discriminate|].
+    destruct (status_rejected s).
+    { destruct (IH _ _ _ _ E x Hx) as [H|H]; [exact (Hback1 H)|]. right. rewrite Htr in H. exact (Hlift _ Hid H). }
+    destruct (send_transaction sc t1 (t_penalty k)) as [s2 t2] eqn:Es2.
+    assert (Htr2 : db_trks t2 = db_trks t).
+    { destruct (send_spec sc t1 (t_penalty k)) as [m [l [Es' _]]]. rewrite Es' in Es2. inversion Es2. rewrite <- Htr. reflexivity. }
+    assert (Hback2 : aget (car_memo t2) x <> None ->
+                     aget (car_memo t) x <> None \/
+                     exists u k', In u (uuid :: r) /\ find_trk (db_trks t) u = Some k' /\ (x = t_dispute k' \/ x = t_penalty k')).
+    { intros H. destruct (send_memo_dom _ _ _ _ _ x Es2 H) as [H'|H']; [exact (Hback1 H')|].
+      right. exists uuid, k. split; [left; reflexivity|]. split; [exact Ef|right; exact H']. }
+    destruct (status_rejected s2).
+    { destruct (IH _ _ _ _ E x Hx) as [H|H]; [exact (Hback2 H)|]. right. rewrite Htr2 in H. exact (Hlift _ Hid H). }
+    assert (Hupd : forall u k', find_trk (db_trks (set_trk_status t2 uuid h false)) u = Some k' ->
+               exists k0, find_trk (db_trks t) u = Some k0 /\ t_dispute k' = t_dispute k0 /\ t_penalty k' = t_penalty k0).
+    { intros u k' Hf. rewrite find_trk_set_status, Htr2 in Hf. destruct (find_trk (db_trks t) u) as [k0|]; [|discriminate].
+      exists k0. split; [reflexivity|]. cbn [option_map] in Hf. inversion Hf.
+      destruct (uuid_eqb (trk_uuid k0) uuid); split; reflexivity. }
+    destruct (IH _ _ _ _ E x Hx) as [H|H]; [exact (Hback2 H)|]. right. exact (Hlift _ Hupd H).
+Qed.
+
 (* ------------------------------------------------------------------------------------------ *)
 (* the responder's block_connected, stage by stage *)
 
@@ -913,7 +1003,12 @@ Record rbc_stages (sc : script) (t : tower) (b : iblock N) (h : N) (t' : tower)
                         filter (stale_rejected (eff_status sc t3)
                                   (reorg_rows (eff_status sc t3) h (reorged tR) (db_trks t3)))
                                (map trk_uuid (filter (stale_sel lim)
-                                  (reorg_rows (eff_status sc t3) h (reorged tR) (db_trks t3)))))) []
+                                  (reorg_rows (eff_status sc t3) h (reorged tR) (db_trks t3)))))) [];
+  rs_memo_dom : forall x, aget (car_memo t5) x <> None ->
+      aget (car_memo t3) x <> None \/
+      (exists u k, In u (reorged tR) /\ find_trk (db_trks t3) u = Some k /\ (x = t_dispute k \/ x = t_penalty k)) \/
+      (exists u k, In u (map trk_uuid (filter (stale_sel lim) (reorg_rows (eff_status sc t3) h (reorged tR) (db_trks t3)))) /\
+                   find_trk (reorg_rows (eff_status sc t3) h (reorged tR) (db_trks t3)) u = Some k /\ x = t_penalty k)
 }.
 
 Lemma inv_nodup_delete t us : NoDup (map trk_uuid (db_trks t)) -> NoDup (map trk_uuid (db_trks (db_delete_apps t us))).
@@ -978,6 +1073,8 @@ Proof.
     split; [exact A|]. split; [apply (ca_memo_mono _ _ _ Hc5); exact B|].
     intros Hn. apply (ca_memo_mono _ _ _ Hc5). apply C. exact Hn.
   - rewrite Hr1. reflexivity.
+  - intros x Hx. destruct (stale_loop_memo_dom _ _ _ _ _ _ _ Es x Hx) as [H|H]; [|right; right; rewrite Ht4 in H; exact H].
+    destruct (reorged_loop_memo_dom _ _ _ _ _ _ _ El x H) as [H'|H']; [left; exact H'|right; left; exact H'].
 Qed.
 
 (* ------------------------------------------------------------------------------------------ *)
@@ -1180,6 +1277,37 @@ Section Pipeline.
       rewrite Hu, (pl_rg u k Hf), Er. reflexivity. }
     split; [exact HfC|]. unfold stale. rewrite (mem_uuid_map_filter _ _ _ _ pl_ndC HfC). unfold stale_sel. rewrite Ec. reflexivity.
   Qed.
+  Lemma pl_B_inv u kB : find_trk lB u = Some kB ->
+    exists k, find_trk l u = Some k /\ kB = confirm_one txids h k.
+  Proof.
+    unfold lB. rewrite find_trk_filter_uuid. destruct (mem_uuid u completed); [discriminate|].
+    rewrite pl_findA. destruct (find_trk l u) as [k|]; [|discriminate]. cbn [option_map]. intros E. inversion E. eauto.
+  Qed.
+
+  (* what handle_reorged_txs is handed comes from the reorged set and was not re-confirmed by this block *)
+  Lemma pl_reorged_inv u kB : In u rg -> find_trk lB u = Some kB ->
+    exists k, find_trk l u = Some k /\ In u rg0 /\ memN (t_penalty k) txids = false /\
+              t_dispute kB = t_dispute k /\ t_penalty kB = t_penalty k.
+  Proof.
+    intros Hu Hf. destruct (pl_B_inv u kB Hf) as [k [Hk He]]. exists k. split; [exact Hk|].
+    apply mem_uuid_In in Hu. rewrite (pl_rg u k Hk) in Hu. apply andb_true_iff in Hu. destruct Hu as [H1 H2].
+    apply mem_uuid_In in H1. apply negb_true_iff in H2. split; [exact H1|]. split; [exact H2|].
+    subst kB. unfold confirm_one. rewrite H2. split; reflexivity.
+  Qed.
+
+  (* what rebroadcast_stale_txs selects is an untouched unconfirmed row of the table before the block *)
+  Lemma pl_stale_inv u kC : In u stale -> find_trk lC u = Some kC ->
+    find_trk l u = Some kC /\ t_conf kC = false /\ t_height kC <= lim /\ memN (t_penalty kC) txids = false.
+  Proof.
+    intros Hu Hf. apply mem_uuid_In in Hu. unfold stale in Hu. rewrite (mem_uuid_map_filter _ _ _ _ pl_ndC Hf) in Hu.
+    unfold stale_sel in Hu. apply andb_true_iff in Hu. destruct Hu as [Hc Hh]. apply negb_true_iff in Hc. apply N.leb_le in Hh.
+    rewrite pl_findC in Hf. destruct (find_trk lB u) as [kB|] eqn:EB; [|discriminate]. cbn [option_map] in Hf.
+    destruct (pl_B_inv u kB EB) as [k [Hk He]].
+    destruct (mem_uuid (trk_uuid kB) rg && negb (trk_rejected e kB)).
+    { inversion Hf. subst kC. cbn [t_height restamp] in Hh. lia. }
+    inversion Hf. subst kC. subst kB. unfold confirm_one in *.
+    destruct (memN (t_penalty k) txids) eqn:Em; [cbn [t_conf restamp] in Hc; discriminate|]. auto.
+  Qed.
 End Pipeline.
 
 (* the carrier's answers during the block of height h, as seen from the state before the block *)
@@ -1201,7 +1329,7 @@ Theorem r_block_connected_rows le sc t b h t' :
               end.
 Proof.
   intros HI E. destruct (r_block_connected_stages le sc t b h t' HI E) as [idx [lim [tR [t3 [t5 S]]]]].
-  destruct S as [S1 S2 S3 S4 S5 [m [l S6]] S7 S8 S9 S10].
+  destruct S as [S1 S2 S3 S4 S5 [m [l S6]] S7 S8 S9 S10 S11].
   exists lim. split; [exact S2|]. intros u.
   assert (HI2 : Inv (cc_result (keys_of (ib_data b)) h (set_r_index (set_car_height t h) idx))).
   { assert (HI1 : Inv (set_r_index (set_car_height t h) idx)) by (eapply inv_frame; [|exact HI]; repeat split).
@@ -1266,6 +1394,12 @@ Record rbc_facts (sc : script) (t : tower) (b : iblock N) (h : N) (t' : tower) (
   rf_cov_stale : forall u k, find_trk (db_trks t) u = Some k -> memN (t_penalty k) (keys_of (ib_data b)) = false ->
                              ~ In u (reorged t) -> t_conf k = false -> t_height k <= lim ->
                              aget (car_memo t5) (t_penalty k) = Some (blk_eff sc t h (t_penalty k));
+  rf_sent_justified : forall x, aget (car_memo t5) x <> None ->
+      aget (car_memo t) x <> None \/
+      (exists k, In k (db_trks t) /\ In (trk_uuid k) (reorged t) /\ memN (t_penalty k) (keys_of (ib_data b)) = false /\
+                 (x = t_dispute k \/ x = t_penalty k)) \/
+      (exists k, In k (db_trks t) /\ t_conf k = false /\ t_height k <= lim /\
+                 memN (t_penalty k) (keys_of (ib_data b)) = false /\ x = t_penalty k);
   rf_reorged : reorged t' = [];
   rf_memo : car_memo t' = [];
   rf_car_height : car_height t' = h;
@@ -1278,7 +1412,7 @@ Theorem r_block_connected_facts le sc t b h t' :
 Proof.
   intros HI E. destruct (r_block_connected_rows le sc t b h t' HI E) as [lim0 [Hl0 Hrows]].
   destruct (r_block_connected_stages le sc t b h t' HI E) as [idx [lim [tR [t3 [t5 S]]]]].
-  destruct S as [S1 S2 S3 S4 S5 [m [l S6]] S7 S8 S9 S10].
+  destruct S as [S1 S2 S3 S4 S5 [m [l S6]] S7 S8 S9 S10 S11].
   assert (lim0 = lim) by congruence. subst lim0.
   assert (HI2 : Inv (cc_result (keys_of (ib_data b)) h (set_r_index (set_car_height t h) idx))).
   { assert (HI1 : Inv (set_r_index (set_car_height t h) idx)) by (eapply inv_frame; [|exact HI]; repeat split).
@@ -1311,6 +1445,14 @@ Proof.
     destruct (pl_unconfirmed (keys_of (ib_data b)) h lim (reorged t) (blk_eff sc t h) (db_trks t) Hnd u k Hf Em Hu Hc) as [HfC Hst].
     apply N.leb_le in Hh. rewrite Hh in Hst. apply mem_uuid_In in Hst.
     exact (S9 u k Hst HfC).
+  - intros x Hx. destruct (S11 x Hx) as [H|[[u [kB [Hu [Hf Hp]]]]|[u [kC [Hu [Hf Hp]]]]]].
+    + left. exact H.
+    + right. left.
+      destruct (pl_reorged_inv (keys_of (ib_data b)) h (reorged t) (db_trks t) Hnd u kB Hu Hf) as [k [Hk [Hr [Em [Hdd Hpp]]]]].
+      destruct (find_trk_Some _ _ _ Hk) as [Hin Huu]. exists k. rewrite Huu. split; [exact Hin|]. split; [exact Hr|]. split; [exact Em|]. rewrite <- Hdd, <- Hpp. exact Hp.
+    + right. right.
+      destruct (pl_stale_inv (keys_of (ib_data b)) h lim (reorged t) (blk_eff sc t h) (db_trks t) Hnd Hlim u kC Hu Hf) as [Hk [Hc [Hh Em]]].
+      destruct (find_trk_Some _ _ _ Hk) as [Hin Huu]. exists kC. auto.
   - rewrite S10, S6. reflexivity.
   - rewrite S10. reflexivity.
   - rewrite S10, S6. reflexivity.
@@ -1844,3 +1986,58 @@ Proof.
     destruct (run_listeners _ _ _) as [[] t1|s t1] eqn:E1; cbn [wrap] in E; inversion E; subst; [|contradiction].
     apply Hsame. apply (run_listeners_users _ _ (fun w a b => disconnect_users a hash _ w b) _ _ E1).
 Qed.
+
+(* ------------------------------------------------------------------------------------------ *)
+(* 5, corollary: the cadence over a run of consecutive blocks *)
+
+Lemma keys_cache_block hash txs : keys_of (ib_data (cache_block hash txs)) = txs.
+Proof. unfold cache_block, keys_of. cbn [ib_data]. rewrite map_map. cbn [fst]. apply map_id. Qed.
+
+(* a block none of whose transactions is the locator of a stored appointment: the watcher only
+   updates its cache and height *)
+Lemma w_block_connected_idle sc t hash txs h t' :
+  (forall a, In a (db_apps t) -> ~ In (a_loc a) txs) ->
+  w_block_connected sc t (cache_block hash txs) h = Ok tt t' ->
+  exists c, t' = set_w_height (set_w_cache t c) h.
+Proof.
+  intros Hno. unfold w_block_connected. destruct (ti_update (w_cache t) (cache_block hash txs)) as [c|]; [|discriminate].
+  rewrite keys_cache_block. cbn [db_apps set_w_cache].
+  assert (Hb : filter (fun d => existsb (fun a => N.eqb (a_loc a) d) (db_apps t)) txs = []).
+  { induction txs as [|d txs IH]; [reflexivity|]. cbn [filter].
+    destruct (existsb (fun a => N.eqb (a_loc a) d) (db_apps t)) eqn:Ex.
+    - apply existsb_exists in Ex. destruct Ex as [a [Ha He]]. apply N.eqb_eq in He. exfalso.
+      apply (Hno a Ha). left. symmetry. exact He.
+    - apply IH. intros a Ha Hi. apply (Hno a Ha). right. exact Hi. }
+  rewrite Hb. cbn [breach_loop bind]. intros E. inversion E. exists c. reflexivity.
+Qed.
+
+Lemma find_trk_filter_user (out : list N) l u :
+  find_trk (filter (fun k => negb (memN (t_user k) out)) l) u = if memN (snd u) out then None else find_trk l u.
+Proof.
+  unfold find_trk. induction l as [|k l IH]; [destruct (memN (snd u) out); reflexivity|]. cbn [filter find].
+  destruct (uuid_eqb (trk_uuid k) u) eqn:E.
+  - apply uuid_eqb_eq in E. assert (Hu : t_user k = snd u) by (rewrite <- E; reflexivity). rewrite Hu.
+    destruct (memN (snd u) out) eqn:Em; cbn [negb]; [exact IH|].
+    cbn [find]. rewrite E, uuid_eqb_refl. reflexivity.
+  - destruct (memN (t_user k) out); cbn [negb]; [exact IH|]. cbn [find]. rewrite E. exact IH.
+Qed.
+
+Lemma gk_block_connected_shape t h tg :
+  gk_block_connected t h = Ok tt tg ->
+  exists out, (forall u, find_trk (db_trks tg) u = if memN (snd u) out then None else find_trk (db_trks t) u) /\
+              incl (db_apps tg) (db_apps t) /\ incl (db_trks tg) (db_trks t) /\
+              reorged tg = reorged t /\ car_memo tg = car_memo t /\
+              rpc_log tg = rpc_log t /\ gk_height tg = h.
+Proof.
+  unfold gk_block_connected. destruct (outdated_users (c_delta (cfg t)) h (gk_users t)) as [out|]; [|discriminate].
+  intros E. inversion E. clear E. destruct out as [|o out].
+  - exists []. split; [intros u; reflexivity|]. repeat split; apply incl_refl.
+  - exists (o :: out). split; [|repeat split].
+    + intros u. unfold p_purge, db_delete_users.
+      cbn [db_trks set_gk_height set_db_trks set_db_apps set_db_users set_gk_users]. apply find_trk_filter_user.
+    + unfold p_purge, db_delete_users. cbn [db_apps set_gk_height set_db_trks set_db_apps set_db_users set_gk_users].
+      apply incl_filter.
+    + unfold p_purge, db_delete_users. cbn [db_trks set_gk_height set_db_trks set_db_apps set_db_users set_gk_users].
+      apply incl_filter.
+Qed.
+
